@@ -6,7 +6,7 @@ import extractor
 from extractor import LostAnchor
 
 VERIF = extractor.VERIF
-BUILD = os.path.join(VERIF, "build")
+BUILD = os.environ.get("VERIF_BUILD") or os.path.join(VERIF, "build")   # VERIF_BUILD: separate scratch dirs for parallel tooling runs
 
 class Failure:
     def __init__(self, message, spans, rendered):
@@ -86,6 +86,17 @@ def run_unit(spec_name, seed=None, rlimit=None, extra_args=(), keep_name=None, t
     res["linemap"] = out.map
     res["clauses"] = sorted({o[6] for o in out.map if o[0] == "clause"})
     res["trusted"] = scan_trusted(out)
+    # evaluation tooling only (env VERIF_EVAL_CACHE=<dir>, never set by a registered command): identical unit text +
+    # identical options give the identical Verus result, so it is computed once per batch
+    cache_file = None
+    if os.environ.get("VERIF_EVAL_CACHE"):
+        import pickle
+        os.makedirs(os.environ["VERIF_EVAL_CACHE"], exist_ok=True)
+        cache_file = os.path.join(os.environ["VERIF_EVAL_CACHE"], "unit-%s-%s-%s-%s.pkl" % (spec_name, res["hash"], rlimit, seed))
+        if os.path.exists(cache_file):
+            r0 = pickle.load(open(cache_file, "rb"))
+            r0["notes"] = list(r0.get("notes", [])) + ["(result taken from the evaluation cache)"]
+            return r0
     cmd = ["verus", unit_path, "--output-json", "--time", "--triggers-mode", "silent", "--multiple-errors", "12"]
     if rlimit: cmd += ["--rlimit", str(rlimit)]
     if seed is not None: cmd += ["--smt-option", "smt.random_seed=%d" % (seed % 1000)]
@@ -201,6 +212,9 @@ def run_unit(spec_name, seed=None, rlimit=None, extra_args=(), keep_name=None, t
             res["status"] = "rlimit"
         elif res["failures"] or res["errors"]:
             res["status"] = "failed"
+    if cache_file:
+        import pickle
+        pickle.dump(res, open(cache_file, "wb"))
     return res
 
 def run_probe(spec_name, rlimit=5):
@@ -218,7 +232,14 @@ def run_probe(spec_name, rlimit=5):
     probes = [f.name for f in fns if f.opts.get("probe")]
     res["probes"] = len(probes)
     unit_path = os.path.join(BUILD, spec_name + "__probe.rs")
-    open(unit_path, "w").write("\n".join(out.lines) + "\n")
+    ptext = "\n".join(out.lines) + "\n"
+    open(unit_path, "w").write(ptext)
+    pcache = None
+    if os.environ.get("VERIF_EVAL_CACHE"):
+        os.makedirs(os.environ["VERIF_EVAL_CACHE"], exist_ok=True)
+        pcache = os.path.join(os.environ["VERIF_EVAL_CACHE"], "probe-%s-%s.json" % (spec_name, hashlib.sha256(ptext.encode()).hexdigest()[:16]))
+        if os.path.exists(pcache):
+            return json.load(open(pcache))
     cmd = ["verus", unit_path, "--output-json", "--triggers-mode", "silent", "--multiple-errors", "0", "--rlimit", str(rlimit), "--", "--error-format=json"]
     res["cmd"] = " ".join(cmd)
     p = subprocess.run(cmd, cwd=BUILD, stdout=subprocess.PIPE, stderr=subprocess.PIPE, text=True)
@@ -256,6 +277,8 @@ def run_probe(spec_name, rlimit=5):
         res["status"] = "undecided"; res["note"] = "probe unit did not compile: " + "; ".join(other[:3])
     elif res["vacuous"]:
         res["status"] = "vacuous"
+    if pcache:
+        json.dump(res, open(pcache, "w"))
     return res
 
 TRUST_PAT = re.compile(r"\b(assume\s*\(|admit\s*\(|external_body|assume_specification|external_fn_specification|#\[verifier::external|verifier::exec_allows_no_decreases_clause|verifier::loop_isolation|unreached)")
